@@ -18,7 +18,8 @@
  *   U2 yields / requests its own migration to R and yields / creates U3 and
  *      yield_to's it.
  * The primary ULT calls ABT_xstream_join(ES1) (or _free) while the resumer
- * (external thread X, or a ULT on ES2) releases U1.  FINALIZE configs: no
+ * (external thread X, a ULT on ES2, or -- shared pool -- a ULT in Q) releases
+ * U1.  FINALIZE configs: no
  * secondary stream; the (unnamed) units sit in the primary stream's main pool
  * and the primary ULT calls ABT_finalize while X releases U1.
  * The exploration window stays open until the join/free/finalize returned. */
@@ -29,7 +30,7 @@ enum { SM_MAIN, SM_REPLACED, SM_STACKED };
 enum { PK_FIFO, PK_FIFO_WAIT, PK_RANDWS, PK_SHARED };
 enum { B_NONE, B_EVENTUAL, B_SUSPEND, B_MUTEX, B_JOIN, B_MIGSUSPEND };
 enum { U2_NONE, U2_YIELD, U2_MIGRATE, U2_YIELD_TO };
-enum { R_NONE, R_EXT, R_ES2 };
+enum { R_NONE, R_EXT, R_ES2, R_Q /* a ULT living in Q itself */ };
 enum { J_JOIN, J_FREE, J_FINALIZE };
 
 typedef struct {
@@ -59,8 +60,9 @@ static const cfg_t cfgs[] = {
       PK_FIFO, SM_REPLACED, B_SUSPEND, U2_NONE, R_EXT, J_JOIN },
     { "BASIC/FIFO stacked sched: U1 eventual, X sets; join", 1, S_B, PK_FIFO,
       SM_STACKED, B_EVENTUAL, U2_NONE, R_EXT, J_JOIN },
-    { "BASIC/FIFO shared by ES1+ES2: U1 suspend, X resumes; join,free,join",
-      0, S_B, PK_SHARED, SM_MAIN, B_SUSPEND, U2_NONE, R_EXT, J_JOIN },
+    { "BASIC/FIFO shared by ES1+ES2: U1 suspend, ULT in Q resumes; "
+      "join,free,join", 1, S_B, PK_SHARED, SM_MAIN, B_SUSPEND, U2_NONE, R_Q,
+      J_JOIN },
     { "finalize: U1 suspend, U2 yield in the primary pool, X resumes", 1, S_B,
       PK_FIFO, SM_MAIN, B_SUSPEND, U2_YIELD, R_EXT, J_FINALIZE },
     { "BASIC/FIFO(Q,R) main: U2 migrates itself to R, U1 eventual, X sets; "
@@ -94,15 +96,19 @@ static const cfg_t cfgs[] = {
       SM_STACKED, B_JOIN, U2_YIELD, R_NONE, J_FREE },
     { "BASIC_WAIT/FIFO_WAIT stacked sched: U1 suspend, X resumes; join", 0, S_W,
       PK_FIFO_WAIT, SM_STACKED, B_SUSPEND, U2_NONE, R_EXT, J_JOIN },
-    { "BASIC/FIFO shared by ES1+ES2: U1 eventual, U2 yield, X sets; "
-      "join,free,join", 0, S_B, PK_SHARED, SM_MAIN, B_EVENTUAL, U2_YIELD, R_EXT,
+    { "BASIC/FIFO shared by ES1+ES2: U1 eventual, U2 yield, ULT in Q sets; "
+      "join,free,join", 0, S_B, PK_SHARED, SM_MAIN, B_EVENTUAL, U2_YIELD, R_Q,
       J_JOIN },
-    { "RANDWS/FIFO shared by ES1+ES2: U1 mutex held by X; join,free,join", 0,
-      S_R, PK_SHARED, SM_MAIN, B_MUTEX, U2_NONE, R_EXT, J_JOIN },
+    { "RANDWS/FIFO shared by ES1+ES2: U1 mutex held by a ULT in Q; "
+      "join,free,join", 0, S_R, PK_SHARED, SM_MAIN, B_MUTEX, U2_NONE, R_Q,
+      J_JOIN },
     { "finalize: U1 blocked on a static mutex held by X", 0, S_B, PK_FIFO,
       SM_MAIN, B_MUTEX, U2_NONE, R_EXT, J_FINALIZE },
     { "finalize: U1 suspend, U2 creates U3 and yields, X resumes", 0, S_B, PK_FIFO,
       SM_MAIN, B_SUSPEND, U2_YIELD_TO, R_EXT, J_FINALIZE },
+    { "BASIC/FIFO shared by ES1+ES2: U1 suspend, X resumes; join,free,join "
+      "(4 threads)", 0, S_B, PK_SHARED, SM_MAIN, B_SUSPEND, U2_NONE, R_EXT,
+      J_JOIN },
 };
 
 static const cfg_t *C;
@@ -250,7 +256,7 @@ static void wait_blocked(int is_ult)
 static void resumer_fn(void *arg)
 {
     (void)arg;
-    int is_ult = (C->resumer == R_ES2);
+    int is_ult = (C->resumer == R_ES2 || C->resumer == R_Q);
     switch (C->block) {
         case B_EVENTUAL: OK(ABT_eventual_set(EV, NULL, 0)); break;
         case B_SUSPEND:
@@ -426,8 +432,8 @@ static void scenario(int cfg)
         if (C->resumer == R_EXT)
             xt = abtmc_thread_create(resumer_fn, NULL);
         else
-            OK(ABT_thread_create(h_main_pool(es2), resumer_fn, NULL,
-                                 ABT_THREAD_ATTR_NULL, &rt));
+            OK(ABT_thread_create(C->resumer == R_Q ? Q : h_main_pool(es2),
+                                 resumer_fn, NULL, ABT_THREAD_ATTR_NULL, &rt));
         abtmc_wait_until_eq(&held, 1);
     }
     /* U2 first when U1 joins it (its handle must exist) */
@@ -442,9 +448,9 @@ static void scenario(int cfg)
     if (C->block != B_MUTEX) {
         if (C->resumer == R_EXT)
             xt = abtmc_thread_create(resumer_fn, NULL);
-        else if (C->resumer == R_ES2)
-            OK(ABT_thread_create(h_main_pool(es2), resumer_fn, NULL,
-                                 ABT_THREAD_ATTR_NULL, &rt));
+        else if (C->resumer == R_ES2 || C->resumer == R_Q)
+            OK(ABT_thread_create(C->resumer == R_Q ? Q : h_main_pool(es2),
+                                 resumer_fn, NULL, ABT_THREAD_ATTR_NULL, &rt));
     }
     check_nonneg("before the join");
     char c1 = state_char(U1), c2 = state_char(U2);
